@@ -25,8 +25,10 @@ import (
 	"io"
 	"os"
 	"runtime"
+	"runtime/debug"
 	"sort"
 	"strconv"
+	"strings"
 	"sync"
 	"sync/atomic"
 	"time"
@@ -100,6 +102,53 @@ type vfdNet struct {
 	nSlow      atomic.Int64
 	nDropped   atomic.Int64
 	maxLatNs   atomic.Int64 // max (delivery end - send) over bundles since the last reset
+	nPanics    atomic.Int64
+	// onPanic is told about a panic of the real code inside a delivery (what, destination, panic value, the
+	// innermost frame of package dkg, full stack). The delivery is then answered with an error.
+	onPanic func(what, dst, val, where, stack string)
+}
+
+// vfdPanicWhere extracts the innermost non-harness function of package dkg from a stack captured in a deferred
+// recover (used to give panics a stable signature).
+func vfdPanicWhere(stack string) string {
+	lines := strings.Split(stack, "\n")
+	seenPanic := false
+	for _, l := range lines {
+		if strings.HasPrefix(l, "panic(") {
+			seenPanic = true
+			continue
+		}
+		if !seenPanic || strings.HasPrefix(l, "\t") {
+			continue
+		}
+		if i := strings.Index(l, "internal/dkg."); i >= 0 {
+			f := l[i+len("internal/dkg."):]
+			if j := strings.LastIndex(f, "("); j > 0 {
+				f = f[:j]
+			}
+			f = strings.NewReplacer("(*", "", ")", "", "*", "").Replace(f)
+			if strings.Contains(f, "vfd") || strings.Contains(f, "c06") || strings.Contains(f, "c08") {
+				continue
+			}
+			return f
+		}
+	}
+	return "unknown"
+}
+
+// guard runs f (a call into the real Process) and converts a panic into an error + onPanic notification.
+func (n *vfdNet) guard(what, dst string, f func() error) (err error) {
+	defer func() {
+		if r := recover(); r != nil {
+			st := string(debug.Stack())
+			n.nPanics.Add(1)
+			if n.onPanic != nil {
+				n.onPanic(what, dst, fmt.Sprint(r), vfdPanicWhere(st), st)
+			}
+			err = fmt.Errorf("vfd bus: destination panicked: %v", r)
+		}
+	}()
+	return f()
 }
 
 func vfdLogger() log.Logger {
@@ -173,6 +222,7 @@ func (n *vfdNet) addCounters(run *vfRun) {
 	run.Count("bundles_async_reordered", n.nAsync.Load())
 	run.Count("bundles_slow_link", n.nSlow.Load())
 	run.Count("bundles_dropped", n.nDropped.Load())
+	run.Count("deliveries_panicked", n.nPanics.Load())
 }
 
 // quiesce waits until no delivery is in flight and no gossip retry is pending. It is only a pacing device
@@ -304,7 +354,10 @@ func (c *vfdClient) Packet(_ context.Context, p net.Peer, packet *pdkg.GossipPac
 		n.note("g:"+packetName(packet), c.from, dst)
 		n.mu.Unlock()
 		n.nGossip.Add(1)
-		_, err = dest.proc.Packet(context.Background(), cp)
+		err = n.guard("gossip:"+packetName(packet), dst, func() error {
+			_, e := dest.proc.Packet(context.Background(), cp)
+			return e
+		})
 		if dup {
 			n.nDup.Add(1)
 			n.inflight.Add(1)
@@ -319,7 +372,10 @@ func (c *vfdClient) Packet(_ context.Context, p net.Peer, packet *pdkg.GossipPac
 				n.note("g2:"+packetName(cp2), c.from, dst)
 				n.mu.Unlock()
 				n.nGossip.Add(1)
-				_, _ = dest.proc.Packet(context.Background(), cp2)
+				_ = n.guard("gossip:"+packetName(cp2), dst, func() error {
+					_, e := dest.proc.Packet(context.Background(), cp2)
+					return e
+				})
 			}()
 		}
 	}
@@ -408,7 +464,10 @@ func (c *vfdClient) BroadcastDKG(_ context.Context, p net.Peer, in *pdkg.DKGPack
 		n.note(tag+kind, c.from, dst)
 		n.mu.Unlock()
 		n.nBundles.Add(1)
-		_, err := dest.proc.BroadcastDKG(context.Background(), cp)
+		err := n.guard("bundle:"+kind, dst, func() error {
+			_, e := dest.proc.BroadcastDKG(context.Background(), cp)
+			return e
+		})
 		if err != nil {
 			n.nBundleErr.Add(1)
 		}
